@@ -115,7 +115,7 @@ def rule_duration_formula(ctx, rule="R4", tab=None, adt=TT.TS):
     delay = TT.fld(roles["delay"])
     gd = F.one(name="get_duration", impl_self_adt=adt)
     eng = pse.Engine(F)
-    ps = eng.run(gd)
+    ps = TT.resolve(eng.run(gd), tab.get("derived"))
     ctx.count_paths(ps, gd)
     inf_rows = [p for p in ps if intervals.fval(p.ret) == float("inf")]
     fin_rows = [p for p in ps if p not in inf_rows and p.outcome == "return"]
@@ -326,9 +326,15 @@ def rule_metadata(ctx, tab, rule="R5"):
     ct = convs[0]
     ps = [p for p in pse.Engine(F).run(ct) if p.outcome == "return"]
     ts_field = [f["name"] for f in F.adt(c11.TBA)["variants"][0]["fields"] if f["ty"] == TT.TS]
-    rets = {repr(dict(p.ret[4]).get(ts_field[0])) if p.ret[0] == "agg" and ts_field else None for p in ps}
-    ok = len(ps) >= 1 and len(rets) == 1 and None not in rets
-    tsv = dict(ps[0].ret[4]).get(ts_field[0]) if ok else None
+    def configured(p):
+        """the time scale a path of the conversion builds, reduced to its configured fields (cached ones follow from them)"""
+        v = dict(p.ret[4]).get(ts_field[0]) if p.ret[0] == "agg" and ts_field else None
+        if v is None or v[0] != "agg" or v[2] != TT.TS:
+            return v
+        return ("agg", v[1], v[2], v[3], tuple((k, x) for k, x in v[4] if k in roles.values()))
+    rets = {repr(configured(p)) for p in ps}
+    ok = len(ps) >= 1 and len(rets) == 1 and "None" not in rets
+    tsv = configured(ps[0]) if ok else None
     if ok and tsv[0] == "agg" and tsv[2] == TT.TS:
         got = dict(tsv[4])
         want = {roles["duration"]: "duration_seconds", roles["delay"]: "delay_seconds", roles["repeat"]: "repeat",
